@@ -73,18 +73,165 @@ pub open spec fn doms_present(t: STree, m: Map<String, GraphColoredVertices>) ->
 }
 
 // ---- the canonical key (contract of get_canonical_and_renaming as seen by the evaluator)
-pub uninterp spec fn canon_str(s: Seq<char>) -> Seq<char>;
-pub uninterp spec fn canon_map(s: Seq<char>) -> IMap<Seq<char>, Seq<char>>;
+// canon_str / canon_map: defined in spec/canon.rs (the scanner specification that canonize_subform is proved to implement)
 pub open spec fn wc_key(p: Seq<char>) -> Seq<char> { "%"@ + p + "%"@ }
-// ASSUMED here (facts about the scanner canonize_subform on rendered trees; see unit canon):
+// Two facts about the scanner on rendered trees (they were axioms until unit canon existed; now proved from the definition of `scan`):
 //  K1a  a wild-card proposition with a plain label is its own canonical form and has no variables
 //  K1b  only a wild-card proposition has a canonical form of that shape
-pub axiom fn axiom_canon_wild(p: Seq<char>)
+// TRUSTED: the name of a network variable is not empty and contains none of the characters ( ) { } % (lib-param-bn accepts [a-zA-Z0-9_]+)
+pub axiom fn axiom_prop_names(n: Seq<char>)
+    requires prop_index(n) is Some
+    ensures n.len() > 0, forall|i: int| 0 <= i < n.len() ==> #[trigger] n[i] != '(' && n[i] != ')' && n[i] != '{' && n[i] != '}' && n[i] != '%';
+pub open spec fn inert(s: Seq<char>) -> bool { forall|i: int| 0 <= i < s.len() ==> #[trigger] s[i] != '(' && s[i] != ')' && s[i] != '{' }
+// text without parentheses and braces is copied unchanged
+pub proof fn lemma_scan_inert(st: SS, fuel: nat)
+    requires inert(st.rest), fuel >= st.rest.len()
+    ensures scan(st, fuel) == (SS { rest: Seq::<char>::empty(), out: st.out + st.rest, m: st.m, n: st.n })
+    decreases st.rest.len()
+{
+    if st.rest.len() == 0 {
+        assert(st.out + st.rest =~= st.out);
+        assert(st.rest =~= Seq::<char>::empty());
+    } else {
+        let ch = st.rest[0];
+        let r = st.rest.drop_first();
+        assert(ch != '(' && ch != ')' && ch != '{');
+        if r.len() > 0 { assert(r[0] == st.rest[1]); }
+        assert forall|i: int| 0 <= i < r.len() implies #[trigger] r[i] != '(' && r[i] != ')' && r[i] != '{' by { assert(r[i] == st.rest[i + 1]); }
+        let s1 = SS { rest: r, out: st.out.push(ch), ..st };
+        lemma_scan_inert(s1, (fuel - 1) as nat);
+        assert(st.out.push(ch) + r =~= st.out + st.rest);
+    }
+}
+// the output only grows
+pub open spec fn is_prefix(a: Seq<char>, b: Seq<char>) -> bool { a.len() <= b.len() && forall|i: int| 0 <= i < a.len() ==> a[i] == b[i] }
+pub proof fn lemma_prefix_trans(a: Seq<char>, b: Seq<char>, c: Seq<char>)
+    requires is_prefix(a, b), is_prefix(b, c)
+    ensures is_prefix(a, c)
+{
+    assert forall|i: int| 0 <= i < a.len() implies a[i] == c[i] by { assert(a[i] == b[i]); assert(b[i] == c[i]); }
+}
+pub proof fn lemma_scan_prefix(st: SS, fuel: nat)
+    ensures is_prefix(st.out, scan(st, fuel).out)
+    decreases fuel
+{
+    if fuel == 0 || st.rest.len() == 0 { } else {
+        let ch = st.rest[0];
+        let r = st.rest.drop_first();
+        let f1 = (fuel - 1) as nat;
+        if ch == '(' {
+            let s1 = SS { rest: r, out: st.out.push('('), ..st };
+            lemma_scan_prefix(s1, f1);
+            lemma_scan_prefix(scan(s1, f1), f1);
+            assert(is_prefix(st.out, s1.out));
+            lemma_prefix_trans(st.out, s1.out, scan(s1, f1).out);
+            lemma_prefix_trans(st.out, scan(s1, f1).out, scan(scan(s1, f1), f1).out);
+        } else if ch == ')' {
+            assert(is_prefix(st.out, st.out.push(')')));
+        } else if is_quant(ch) && r.len() > 0 && r[0] == '{' {
+            let r2 = r.drop_first();
+            let s1 = SS { rest: drop_until(r2), out: st.out + seq![ch] + "{"@ + vname(st.n) + "}"@, m: st.m.insert(take_until(r2), vname(st.n)), n: st.n + 1 };
+            lemma_scan_prefix(s1, f1);
+            assert(is_prefix(st.out, s1.out));
+            lemma_prefix_trans(st.out, s1.out, scan(s1, f1).out);
+        } else if ch == '{' {
+            let name = take_until(r);
+            let m2 = if st.m.contains_key(name) { st.m } else { st.m.insert(name, vname(st.n)) };
+            let n2 = if st.m.contains_key(name) { st.n } else { st.n + 1 };
+            let s1 = SS { rest: drop_until(r), out: st.out + "{"@ + m2[name] + "}"@, m: m2, n: n2 };
+            lemma_scan_prefix(s1, f1);
+            assert(is_prefix(st.out, s1.out));
+            lemma_prefix_trans(st.out, s1.out, scan(s1, f1).out);
+        } else {
+            let s1 = SS { rest: r, out: st.out.push(ch), ..st };
+            lemma_scan_prefix(s1, f1);
+            assert(is_prefix(st.out, s1.out));
+            lemma_prefix_trans(st.out, s1.out, scan(s1, f1).out);
+        }
+    }
+}
+// the first character of the canonical form of a non-empty text is its first character
+pub proof fn lemma_canon_first(s: Seq<char>)
+    requires s.len() > 0
+    ensures canon_str(s).len() > 0, canon_str(s)[0] == s[0]
+{
+    reveal(canon_str);
+    reveal_strlit("{");
+    let st = SS { rest: s, out: Seq::<char>::empty(), m: IMap::<Seq<char>, Seq<char>>::empty(), n: 0 };
+    let ch = s[0];
+    let r = s.drop_first();
+    let f1 = (s.len() - 1) as nat;
+    if ch == '(' {
+        let s1 = SS { rest: r, out: st.out.push('('), ..st };
+        lemma_scan_prefix(s1, f1);
+        lemma_scan_prefix(scan(s1, f1), f1);
+        lemma_prefix_trans(s1.out, scan(s1, f1).out, scan(scan(s1, f1), f1).out);
+        assert(s1.out.len() == 1 && s1.out[0] == '(');
+        assert(scan(st, s.len()) == scan(scan(s1, f1), f1));
+    } else if ch == ')' {
+        assert(scan(st, s.len()).out =~= seq![')']);
+    } else if is_quant(ch) && r.len() > 0 && r[0] == '{' {
+        let r2 = r.drop_first();
+        let s1 = SS { rest: drop_until(r2), out: st.out + seq![ch] + "{"@ + vname(st.n) + "}"@, m: st.m.insert(take_until(r2), vname(st.n)), n: st.n + 1 };
+        lemma_scan_prefix(s1, f1);
+        assert(s1.out.len() > 0 && s1.out[0] == ch);
+        assert(scan(st, s.len()) == scan(s1, f1));
+    } else if ch == '{' {
+        let name = take_until(r);
+        let m2 = if st.m.contains_key(name) { st.m } else { st.m.insert(name, vname(st.n)) };
+        let n2 = if st.m.contains_key(name) { st.n } else { st.n + 1 };
+        let s1 = SS { rest: drop_until(r), out: st.out + "{"@ + m2[name] + "}"@, m: m2, n: n2 };
+        lemma_scan_prefix(s1, f1);
+        assert(s1.out.len() > 0 && s1.out[0] == '{');
+        assert(scan(st, s.len()) == scan(s1, f1));
+    } else {
+        let s1 = SS { rest: r, out: st.out.push(ch), ..st };
+        lemma_scan_prefix(s1, f1);
+        assert(s1.out.len() == 1 && s1.out[0] == ch);
+        assert(scan(st, s.len()) == scan(s1, f1));
+    }
+}
+pub proof fn lemma_canon_inert(s: Seq<char>)
+    requires inert(s)
+    ensures canon_str(s) == s, canon_map(s) == IMap::<Seq<char>, Seq<char>>::empty()
+{
+    reveal(canon_str); reveal(canon_map);
+    let st = SS { rest: s, out: Seq::<char>::empty(), m: IMap::<Seq<char>, Seq<char>>::empty(), n: 0 };
+    lemma_scan_inert(st, s.len());
+    assert(st.out + s =~= s);
+}
+pub proof fn lemma_canon_wild(p: Seq<char>)
     requires plain_name(p)
-    ensures canon_str(wc_key(p)) == wc_key(p), canon_map(wc_key(p)) == IMap::<Seq<char>, Seq<char>>::empty();
-pub axiom fn axiom_canon_not_wild(t: STree, p: Seq<char>)
+    ensures canon_str(wc_key(p)) == wc_key(p), canon_map(wc_key(p)) == IMap::<Seq<char>, Seq<char>>::empty()
+{
+    reveal_strlit("%");
+    let w = wc_key(p);
+    assert forall|i: int| 0 <= i < w.len() implies #[trigger] w[i] != '(' && w[i] != ')' && w[i] != '{' by {
+        if 0 < i < w.len() - 1 { assert(w[i] == p[i - 1]); assert(plain_char(p[i - 1])); }
+    }
+    lemma_canon_inert(w);
+}
+pub proof fn lemma_canon_not_wild(t: STree, p: Seq<char>)
     requires names_ok(t), canon_str(render(t)) == wc_key(p)
-    ensures t == STree::Term(SAtom::Wild(p));
+    ensures t == STree::Term(SAtom::Wild(p))
+{
+    reveal_strlit("%"); reveal_strlit("("); reveal_strlit("{"); reveal_strlit("True"); reveal_strlit("False");
+    let w = wc_key(p);
+    assert(w.len() >= 2 && w[0] == '%');
+    match t {
+        STree::Term(SAtom::Wild(q)) => { lemma_canon_wild(q); lemma_wc_key_inj(q, p); },
+        STree::Term(SAtom::Var(x)) => { assert(render(t)[0] == '{'); lemma_canon_first(render(t)); },
+        STree::Term(SAtom::Prop(n)) => {
+            axiom_prop_names(n);
+            assert(inert(n));
+            lemma_canon_inert(n);
+            assert(n[0] != '%');
+        },
+        STree::Term(SAtom::True) => { lemma_canon_first(render(t)); },
+        STree::Term(SAtom::False) => { lemma_canon_first(render(t)); },
+        _ => { assert(render(t).len() > 0 && render(t)[0] == '('); lemma_canon_first(render(t)); },
+    }
+}
 pub proof fn lemma_wc_key_inj(p: Seq<char>, q: Seq<char>)
     requires wc_key(p) == wc_key(q)
     ensures p == q
